@@ -280,7 +280,7 @@ Definition expire_obj (ob : obj) : obj :=
 Definition expire (o : nat) (st : sess) : sess := mod_obj st o expire_obj.
 (* InstanceState._detach_states *)
 Definition detach_obj (to_transient : bool) (ob : obj) : obj :=
-  o_att (if to_transient then o_key ob None else ob) false.
+  o_att (if to_transient then o_delf (o_key ob None) false else ob) false.   (* to_transient: key and _deleted go *)
 Definition detach (to_transient : bool) (o : nat) (st : sess) : sess := mod_obj st o (detach_obj to_transient).
 
 (* the same change applied to every object: a Python loop over a set of states whose body touches only
@@ -329,9 +329,11 @@ Definition restore_ks_one (to_expunge : list nat) (ks : list (nat * (Z * Z))) (o
   match ks_find o ks with
   | None => st
   | Some (old, _) =>
-      let st1 := safe_discard o st in
-      let st2 := mod_obj st1 o (fun ob => o_key ob (Some old)) in
-      if mem o to_expunge then st2 else im_replace o st2
+      if mem o to_expunge then st          (* transient again: no identity key to restore *)
+      else
+        let st1 := safe_discard o st in
+        let st2 := mod_obj st1 o (fun ob => o_key ob (Some old)) in
+        im_replace o st2
   end.
 Definition restore_snapshot (dirty_only : bool) : M := fun st =>
   match stack st with
@@ -356,7 +358,10 @@ Definition merge_into (p f : frame) : frame :=
   let p1 := f_new p (fold_left (fun l o => addm o l) (fnew f) (fnew p)) in
   let p2 := f_dirty p1 (fold_left (fun l o => addm o l) (fdirty f) (fdirty p1)) in
   let p3 := f_del p2 (fold_left (fun l o => addm o l) (fdel f) (fdel p2)) in
-  f_ks p3 (fold_left (fun l e => ks_set (fst e) (snd e) l) (fks f) (fks p3)).   (* dict.update *)
+  (* the key the state had when the parent began is kept *)
+  f_ks p3 (fold_left (fun l e =>
+                        let old := match ks_find (fst e) l with Some (po, _) => po | None => fst (snd e) end in
+                        ks_set (fst e) (old, snd (snd e)) l) (fks f) (fks p3)).
 Definition remove_snapshot (st : sess) : sess :=
   match stack st with
   | [] => st
@@ -862,7 +867,10 @@ Definition do_op (p : op) : M := fun st =>
   | OClose =>
       (* Session.close -> expunge_all, then close every transaction innermost first *)
       let sn := snew st in
-      let st1 := map_objs st (fun x o => if oin o || mem x sn then detach_obj false (o_in o false) else o) in
+      (* expunge_all: the identity map, session._new and the attached objects in the deleted state that the
+         open transactions refer to *)
+      let dl x o := existsb (fun f => mem x (fdel f)) (stack st) && odelf o && oatt o in
+      let st1 := map_objs st (fun x o => if oin o || mem x sn || dl x o then detach_obj false (o_in o false) else o) in
       let st2 := set_sdel (set_snew st1 []) [] in
       close_all (S (length (stack st2))) st2
   | OLoad o =>
